@@ -228,8 +228,9 @@ var rOneParser = &Rule{
 						if sx.Callee(x) == nil || !allowed[sx.Callee(x).Name()] {
 							ok = false
 						}
-					case *ssa.Phi, *ssa.UnOp:
-						// named results spilled or merged: accept only if every edge is an allowed call/const
+					case *ssa.Phi, *ssa.UnOp, *ssa.TypeAssert:
+						// named results spilled or merged, or a value taken back out of a package-level memo:
+						// accept only if every edge / everything ever stored in the memo is an allowed call/const
 						ok = ok && phiFromAllowed(res, allowed, 0)
 					default:
 						ok = false
@@ -259,6 +260,32 @@ func phiFromAllowed(v ssa.Value, allowed map[string]bool, d int) bool {
 			}
 		}
 		return true
+	case *ssa.TypeAssert:
+		// v.(T) of what a package-level sync.Map returned: fine if everything the function stores there is allowed
+		ex, ok := x.X.(*ssa.Extract)
+		if !ok || ex.Index != 0 {
+			return false
+		}
+		ld, ok := ex.Tuple.(*ssa.Call)
+		if !ok || sx.Callee(ld) == nil || sx.Callee(ld).Name() != "Load" || len(ld.Call.Args) < 1 {
+			return false
+		}
+		g, ok := ld.Call.Args[0].(*ssa.Global)
+		if !ok {
+			return false
+		}
+		n, good := 0, true
+		sx.EachInstr(x.Parent(), func(in ssa.Instruction) {
+			st, ok := in.(*ssa.Call)
+			if !ok || sx.Callee(st) == nil || sx.Callee(st).Name() != "Store" || len(st.Call.Args) != 3 || st.Call.Args[0] != ssa.Value(g) {
+				return
+			}
+			n++
+			if !phiFromAllowed(stripIface(st.Call.Args[2]), allowed, d+1) {
+				good = false
+			}
+		})
+		return n > 0 && good
 	case *ssa.Extract:
 		call, ok := x.Tuple.(*ssa.Call)
 		return ok && sx.Callee(call) != nil && allowed[sx.Callee(call).Name()]
